@@ -2224,6 +2224,8 @@ def bind_call(fn: ast.FunctionDef, call: ast.Call, skip_first: int = 0) -> Optio
 class Inliner(ast.NodeTransformer):
     """Replace calls to single-return-path package functions by their (substituted) return expression."""
 
+    memo_ok = False  # read through memoising decorators (lru_cache / cache): same values, but one shared object - only for callers that have settled the aliasing question
+
     def __init__(self, repo: Repo, mi: ModuleInfo, depth: int = 3, closures: Optional[dict] = None):
         self.repo, self.mi, self.depth, self.closures = repo, mi, depth, closures or {}
 
@@ -2240,7 +2242,9 @@ class Inliner(ast.NodeTransformer):
             r = self.repo.resolve(self.mi, name)
             if r is not None and isinstance(r[1], ast.FunctionDef):
                 fmi, fn = r
-        if fn is None or fn.decorator_list:
+        if fn is None:
+            return node
+        if fn.decorator_list and not (self.memo_ok and all(U(d.func if isinstance(d, ast.Call) else d) in ("lru_cache", "functools.lru_cache", "cache", "functools.cache") for d in fn.decorator_list)):
             return node
         env = bind_call(fn, node)
         if env is None:
@@ -2252,12 +2256,16 @@ class Inliner(ast.NodeTransformer):
         rets = [p for p in ps if p.end[0] != "raise"]
         if len(rets) == 1 and rets[0].end[0] == "return" and len(ps) == 1 and rets[0].end[1] is not None:
             out = rets[0].end[1]
-            return Inliner(self.repo, fmi, self.depth - 1).visit(out)
+            sub = Inliner(self.repo, fmi, self.depth - 1)
+            sub.memo_ok = self.memo_ok
+            return sub.visit(out)
         return node
 
 
-def inline(repo: Repo, mi: ModuleInfo, expr, depth=3, closures=None):
-    return Inliner(repo, mi, depth, closures).visit(copy.deepcopy(expr))
+def inline(repo: Repo, mi: ModuleInfo, expr, depth=3, closures=None, memo_ok=False):
+    inl = Inliner(repo, mi, depth, closures)
+    inl.memo_ok = memo_ok
+    return inl.visit(copy.deepcopy(expr))
 
 
 # ----------------------------------------------------------------------------------------------
